@@ -604,6 +604,103 @@ func kernelLayers(tier string) []Layer {
 			}
 		},
 	})
+	// K4: long vectors (block-copy / unrolled paths that only start at a few hundred words)
+	{
+		longN := []int{127, 128, 129, 255, 256, 257, 300, 511, 512, 513}
+		if thorough {
+			longN = append(longN, 1023, 1024, 1025, 2049, 4097)
+		}
+		type unit4 struct {
+			k *kdef
+			n int
+		}
+		var units4 []unit4
+		for i := range kernelDefs {
+			for _, n := range longN {
+				units4 = append(units4, unit4{&kernelDefs[i], n})
+			}
+		}
+		layers = append(layers, Layer{
+			Name:   "K4-long-vectors",
+			Units:  len(units4),
+			Bounds: fmt.Sprintf("10 vector kernels × lengths %v × x = uniform word {0, B/2, B−1} with one exception {1, B−1, 0} at index {0, 1, 3, 4, n/2, n−2, n−1} × (y uniform / carry seed | scalars {1, B−1, B/2} | shifts {0, 1, 9, 18}) × all layouts", longN),
+			Run: func(c *Ctx, u int) {
+				k, n := units4[u].k, units4[u].n
+				var xs [][]uint64
+				for _, w := range []uint64{0, BW / 2, BW - 1} {
+					for _, e := range []uint64{1, BW - 1, 0} {
+						if e == w {
+							continue
+						}
+						for _, p := range []int{0, 1, 3, 4, n / 2, n - 2, n - 1} {
+							v := make([]uint64, n)
+							for i := range v {
+								v[i] = w
+							}
+							v[p] = e
+							xs = append(xs, v)
+						}
+					}
+				}
+				uni := func(w uint64) []uint64 {
+					v := make([]uint64, n)
+					for i := range v {
+						v[i] = w
+					}
+					return v
+				}
+				seed := uni(0)
+				seed[0] = 1
+				ys := [][]uint64{uni(0), uni(BW - 1), uni(BW / 2), seed}
+				if k.name == "divWVW" {
+					xs = xs[:0]
+					for _, w := range []uint64{0, 1<<64 - 1, 1 << 63} {
+						v := uni(w)
+						v[n/2] = 0x5555555555555555
+						xs = append(xs, v)
+					}
+				}
+				for _, layout := range k.layouts {
+					for _, x := range xs {
+						if c.Done() {
+							return
+						}
+						switch k.name {
+						case "add10VV", "sub10VV":
+							for _, y := range ys {
+								kernelCase(c, k, n, layout, x, y, nil, 0, 0, 0)
+							}
+						case "add10VW", "sub10VW":
+							for _, w := range []uint64{0, 1, BW - 1, BW / 2} {
+								kernelCase(c, k, n, layout, x, nil, nil, w, 0, 0)
+							}
+						case "shl10VU", "shr10VU":
+							for _, sft := range []uint{0, 1, 9, 18} {
+								kernelCase(c, k, n, layout, x, nil, nil, 0, 0, sft)
+							}
+						case "mulAdd10VWW":
+							for _, w := range []uint64{1, BW - 1, BW / 2} {
+								kernelCase(c, k, n, layout, x, nil, nil, w, BW-1, 0)
+							}
+						case "addMul10VVW":
+							for _, w := range []uint64{1, BW - 1} {
+								kernelCase(c, k, n, layout, x, nil, ys[1], w, 0, 0)
+								kernelCase(c, k, n, layout, x, nil, ys[3], w, 0, 0)
+							}
+						case "div10VWW":
+							for _, w := range []uint64{1, BW - 1, BW / 2} {
+								kernelCase(c, k, n, layout, x, nil, nil, w, w-1, 0)
+							}
+						case "divWVW":
+							for _, w := range []uint64{3, BW, 1<<64 - 1} {
+								kernelCase(c, k, n, layout, x, nil, nil, w, w/2, 0)
+							}
+						}
+					}
+				}
+			},
+		})
+	}
 	// K3: words at the *binary* boundaries of the 64-bit registers that hold the decimal words
 	// (2·10^19 > 2^64: sums wrap the register; 2^63: sign-bit tricks; 2^32, √B: half-word products)
 	{
